@@ -69,6 +69,8 @@ def plan(prop):
         rl = [(1, 1, True), (0, 1, True), (1, 0, True), (1, 1, False)] if Q else [(1, 1, True), (0, 1, True), (1, 0, True), (1, 1, False), (2, 1, True), (1, 2, True), (2, 2, True), (0, 2, False)]
         for b, a, closed in rl:
             obs.append((core, lambda ctx, b=b, a=a, c=closed: co.ob_capacity_reload(ctx, b, a, c)))
+        for b, a, closed in ([(1, 1, True), (0, 1, True)] if Q else [(1, 1, True), (0, 1, True), (1, 0, True), (2, 1, True), (1, 1, False)]):
+            obs.append((core, lambda ctx, b=b, a=a, c=closed: co.ob_capacity_reload(ctx, b, a, c, True)))
     if prop in ('C01', 'C06'):
         for k, n in (((0, 1), (1, 2)) if Q else ((0, 1), (1, 2), (2, 3))):
             obs.append((core, lambda ctx, k=k, n=n: co.ob_route_level_gates(ctx, k, n)))
@@ -77,6 +79,8 @@ def plan(prop):
     if prop == 'C01':
         for k in ((0, 1, 2) if Q else (0, 1, 2, 3)):
             obs.append((core, lambda ctx, k=k: co.ob_tour_order_gate(ctx, k)))
+        for k in ((1, 2) if Q else (1, 2, 3)):
+            obs.append((core, lambda ctx, k=k: co.ob_tour_order_gate(ctx, k, False)))
         for n in (1, 2, 3):
             obs.append((core, lambda ctx, n=n: co.ob_evaluate_with_constraints(ctx, n)))
     if prop == 'C03':
@@ -125,8 +129,9 @@ def plan(prop):
         obs.append(('vrp-pragmatic', lambda ctx: po.ob_job_rules(ctx, 'pd', 9)))
     if prop in ('C16', 'C10'):
         import pragmatic_obligations as po
-        for n, m in (((4, None), (4, 4), (4, 1), (4, 3), (4, 5)) if Q else ((4, None), (4, 4), (4, 1), (4, 3), (4, 5), (9, 9), (9, 8), (1, 1), (1, 0))):
-            obs.append(('vrp-pragmatic', lambda ctx, n=n, m=m: po.ob_pragmatic_matrix(ctx, n, m)))
+        for n, m, ntt in (((4, None, 4), (4, 4, 4), (4, 1, 4), (4, 3, 4), (4, 5, 4), (4, 4, 3)) if Q else
+                          ((4, None, 4), (4, 4, 4), (4, 1, 4), (4, 3, 4), (4, 5, 4), (4, 4, 3), (9, 9, 9), (9, 8, 9), (1, 1, 1), (1, 0, 1), (4, 4, 1), (9, 9, 8))):
+            obs.append(('vrp-pragmatic', lambda ctx, n=n, m=m, ntt=ntt: po.ob_pragmatic_matrix(ctx, n, m, ntt)))
     if prop == 'C12':
         import pragmatic_obligations as po
         prag = 'vrp-pragmatic'
